@@ -98,10 +98,53 @@ def tree_input_shapes(rnd, tier, ty):
     return out
 
 
-def huff_input_shapes(rnd, tier, ty, binary=False):
+def dyadic_tree(rnd, k, depth, nsym_max):
+    """leaf depths of a random full k-ary tree with at least two branches reaching `depth`;
+    a leaf at depth d gets weight k^(depth-d), so the optimal code lengths are exactly the depths"""
+    leaves = []
+
+    def grow(d, must):
+        if d == depth:
+            leaves.append(d)
+            return
+        if not must and (rnd.random() < 0.75 or len(leaves) > nsym_max):
+            leaves.append(d)
+            return
+        kids = [False] * k
+        if must:
+            kids[rnd.randrange(k)] = True
+        order = list(range(k))
+        rnd.shuffle(order)
+        for i in order:
+            grow(d + 1, kids[i])
+
+    # two forced deep branches below different children of the root
+    forced = rnd.sample(range(k), 2)
+    for i in range(k):
+        grow(1, i in forced)
+    return leaves
+
+
+def dyadic_seq(rnd, k, depth, T):
+    depths = dyadic_tree(rnd, k, depth, 40)
+    syms = rnd.sample(range(0, min(T, 250) + 1), len(depths)) if len(depths) <= min(T, 250) + 1 else list(range(len(depths)))
+    runs = [([sy], k ** (depth - d)) for sy, d in zip(syms, depths)]
+    rnd.shuffle(runs)
+    return Seqn.from_runs(runs)
+
+
+def huff_input_shapes(rnd, tier, ty, binary=False, deep=False):
     """frequency profiles for Huffman-shaped trees"""
     T = tmax(ty)
     out = []
+    if deep:
+        # code lengths beyond 16 bits (more than 8 quad levels / 16 binary levels)
+        if binary:
+            for L in ([17] if tier == "quick" else [17, 18, 20]):
+                out.append(("dyadic_deep%d" % L, dyadic_seq(rnd, 2, L, T)))
+        else:
+            for L in ([9] if tier == "quick" else [9, 10]):
+                out.append(("dyadic_deep%d" % L, dyadic_seq(rnd, 4, L, T)))
     out.append(("empty", Seqn.from_values([])))
     out.append(("one_elem", Seqn.from_values([min(T, 3)])))
     out.append(("single_symbol", Seqn.from_runs([([min(T, rnd.choice([0, 2, 9]))], rnd.choice([1, 4, 300]))])))
@@ -232,8 +275,9 @@ def camp_tree_huff(rnd, tier, kinds=QUAD_HUFF, binary=False):
     types = UTYPES if tier == "thorough" else rnd.sample(UTYPES, 2) + ["u8"]
     paths = rotate(["new", "from_vec", "collect"], rnd)
     kk = rotate(kinds, rnd)
+    deep_ty = rnd.choice(types)
     for ty in types:
-        for name, s in huff_input_shapes(rnd, tier, ty, binary):
+        for name, s in huff_input_shapes(rnd, tier, ty, binary, deep=(ty == deep_ty or tier == "thorough")):
             modes = tie_modes(rnd, tier, s.used_values())
             if tier == "quick" and len(s) > 2000:
                 modes = modes[:2]
@@ -359,6 +403,18 @@ def bit_input_shapes(rnd, tier):
     for c in ([1023, 1024, 1025, 2048, 8191, 8192, 8193, 16385] if tier == "thorough" else [rnd.choice([1023, 1024, 1025]), rnd.choice([8191, 8192, 8193])]):
         out.append(("ones%d" % c, Seqn.from_runs([([1, 0, 0], c // 2), ([0], 700), ([1], c - c // 2), ([0, 1, 1], 5)])))
         out.append(("zeros%d" % c, Seqn.from_runs([([0, 1], c // 2), ([1], 900), ([0], c - c // 2), ([1, 0, 0], 7)])))
+    # the P-th one (zero) falls in the last word / at a line boundary, followed by a few more
+    for P in (1024, 8192):
+        lines = [3, 17] if P == 1024 else [17, 33]
+        combos = [(L, d, k) for L in lines for d in (0, 1, 63, 64, 449) for k in (0, 1, 2, 40, 70)]
+        for (L, d, k) in (combos if tier == "thorough" else rnd.sample(combos, 4)):
+            n = 512 * L - d
+            if n - P - k <= 0:
+                continue
+            for bit in (1, 0):
+                out.append(("hint%d_%d_%d_%d_%d" % (P, L, d, k, bit), Seqn.from_runs([([1 - bit], n - P - k), ([bit], P + k)])))
+    for n in (512, 1024) if tier == "quick" else (512, 1024, 1536, 4096, 8192):
+        out.append(("mult512_%d" % n, Seqn.from_values(rand_seq(rnd, n, [0, 1]))))
     big = 70000 if tier == "quick" else 1500000
     out.append(("long_rand", Seqn.from_values(rand_seq(rnd, 20000 if tier == "quick" else 200000, [0, 1]))))
     out.append(("long_runs", Seqn.from_runs([([0], big // 2), ([1], 3), ([0], 4096), ([1], big // 3), ([0, 1], 500)])))
@@ -416,12 +472,27 @@ def darray_group(rnd, letter, bit):
     if letter == "partial":
         k = rnd.choice([1, 31, 32, 33, 500])
         return [([bit] + [ob] * rnd.choice([0, 2, 70]), k)]
+    if letter.startswith("partial_span"):
+        # a partial group of 32*j+1 occurrences whose first and last are exactly `span` bits apart
+        span = int(letter[len("partial_span"):])
+        j = rnd.choice([1, 2, 7, 31])
+        k = 32 * j + 1
+        step = span // (k - 1)
+        rest = span - step * (k - 1)
+        runs = [([bit] + [ob] * (step - 1), k - 1 - rest)] if k - 1 - rest > 0 else []
+        if rest > 0:
+            runs.append(([bit] + [ob] * step, rest))
+        runs.append(([bit], 1))
+        return runs
     raise ValueError(letter)
 
 
 def darray_inputs(rnd, tier):
     out = [("empty", Seqn.from_values([])), ("zeros", Seqn.from_runs([([0], 200)])), ("ones", Seqn.from_runs([([1], 2100)])),
            ("small", Seqn.from_values(rand_seq(rnd, 300, [0, 1])))]
+    for span in (65535, 65536, 65537):
+        for bit in (1, 0):
+            out.append(("only_partial_span%d_%d" % (span, bit), Seqn.from_runs(darray_group(rnd, "partial_span%d" % span, bit) + [([1 - bit], rnd.choice([0, 1, 65]))])))
     letters = ["dense", "sparse", "exact_dense", "exact_sparse"]
     words = []
     maxlen = 3 if tier == "thorough" else 2
@@ -435,8 +506,11 @@ def darray_inputs(rnd, tier):
             runs = []
             for letter in w:
                 runs += darray_group(rnd, letter, bit)
-            if rnd.random() < 0.7:
+            r = rnd.random()
+            if r < 0.4:
                 runs += darray_group(rnd, "partial", bit)
+            elif r < 0.9:
+                runs += darray_group(rnd, "partial_span%d" % rnd.choice([65535, 65536, 65537, 70000]), bit)
             if rnd.random() < 0.5:
                 runs += [([1 - bit], rnd.choice([1, 64, 700]))]
             out.append(("%s_%d" % ("-".join(w), bit), Seqn.from_runs(runs)))
@@ -595,7 +669,14 @@ def bvm_history(b, rnd, nops, tier):
         elif op == "extend_positions":
             base = rnd.choice([n, n, n + 1, n + 70, max(0, n - 5)])
             k = rnd.choice([0, 1, 3, 10])
-            ps = sorted(set(base + rnd.randrange(0, 200) for _ in range(k)))
+            ps = set(base + rnd.randrange(0, 200) for _ in range(k))
+            if n > 0 and rnd.random() < 0.6:
+                # positions that already hold a one / a zero
+                ones_at = [i for i, v in enumerate(bits) if v == 1]
+                if ones_at:
+                    ps.update(rnd.sample(ones_at, min(len(ones_at), rnd.choice([1, 2]))))
+                ps.add(rnd.randrange(n))
+            ps = sorted(ps)
             b.mut(o, "extend_positions", pos=ps)
             if ps:
                 if ps[-1] + 1 > len(bits):
@@ -698,7 +779,7 @@ def camp_c12(rnd, tier):
         b.ith(o, "iter", "b" * (n + 3) + "l" + "n" + "l")
         b.ith(o, "into_iter", "n" * (n + 2), keep=0)
     # forward iterators of bit vectors (with len), quad vectors, position iterators, DArray
-    for n in list(range(0, maxn + 1)) + [63, 64, 65, 130]:
+    for n in list(range(0, maxn + 1)) + [63, 64, 65, 130, 511, 512, 513, 1024]:
         bits = rand_seq(rnd, n, [0, 1])
         s = Seqn.from_values(bits)
         b.reset()
@@ -1097,4 +1178,126 @@ def camp_c19(rnd, tier):
                 v2[j] ^= 1
                 d = b.newb(kind, ps[0], Seqn.from_values(v2))
                 b.eq(objs[0], d)
+    return b
+
+
+# ------------------------------------------------------------------ C04 totality
+
+
+ALLHUGE = tuple(HUGE)
+
+
+def derived(b, o, rnd):
+    """other ways of obtaining the same value"""
+    out = [o]
+    out.append(b.conv(o, "clone"))
+    out.append(b.conv(o, "serde"))
+    return out
+
+
+def camp_c04(rnd, tier):
+    b = Beh()
+    types = rotate(UTYPES, rnd)
+    # trees: constructors on arbitrary input, Default, Clone, serde, rebuilt from iterator
+    for kind in TREE_KINDS:
+        huff = kind.startswith("H")
+        for rep in range(1 if tier == "quick" else 3):
+            ty = next(types)
+            # Huffman-shaped trees keep a table indexed by symbol value: values stay small there
+            # (a huge one is a permitted allocation failure, not a finding)
+            T = min(tmax(ty), 70000) if huff else tmax(ty)
+            shapes = [("empty", Seqn.from_values([])), ("zero", Seqn.from_values([0])), ("one", Seqn.from_values([min(T, 9)])),
+                      ("single", Seqn.from_runs([([min(T, 6)], 70)])), ("tmax", Seqn.from_values([0, T, T, 1])),
+                      ("small", Seqn.from_values(rand_seq(rnd, 40, [0, 1, 2, 3, min(T, 77)]))),
+                      ("b256", Seqn.from_values(rand_seq(rnd, rnd.choice([255, 256, 257, 512, 2048]), list(range(min(T, 20) + 1)))))]
+            if tier == "thorough":
+                shapes += rnd.sample(huff_input_shapes(rnd, "quick", ty, kind == "HWT") if huff else tree_input_shapes(rnd, "quick", ty), 6)
+            for name, s in shapes:
+                b.reset()
+                o = b.newt(kind, ty, rnd.choice(["new", "from_vec", "collect"]), s)
+                objs = derived(b, o, rnd) + [b.conv(o, "collect_iter")]
+                for x in objs:
+                    what = ("meta", "get", "rank", "select") + (() if kind in ("WT", "HWT") else ("rank_prefetch",))
+                    cs, pos = tree_queries(b, x, s, ty, rnd, what=what, nrand=4, huge=ALLHUGE)
+                    n = len(s)
+                    b.ith(x, "iter", "n" * min(n + 2, 50) + "lblbnnl")
+                    b.ith(x, "into_iter", "b" * min(n + 2, 50) + "lnlb", keep=1)
+                # far symbols per carrier
+                far = [c for c in (4, 5, 255, 256, 65535, 1 << 32, (1 << 32) + 1, 1 << 63, (1 << 64) - 1, 1 << 64, (1 << 64) + 1, (1 << 127) + 5, tmax(ty)) if c <= tmax(ty)]
+                b.qg(o, "rank", [sym(c) for c in far], [0, 1, len(s), -1])
+                b.qg(o, "select", [sym(c) for c in far], [0, 1, -1])
+        b.reset()
+        for ty in ("u8", "u128"):
+            d = b.newt(kind, ty, "default", Seqn.from_values([]))
+            for x in derived(b, d, rnd):
+                tree_queries(b, x, Seqn.from_values([]), ty, rnd, what=("meta", "get", "rank", "select") + (() if kind in ("WT", "HWT") else ("rank_prefetch",)), huge=ALLHUGE)
+                b.ith(x, "iter", "nbl")
+                b.ith(x, "into_iter", "lnb", keep=1)
+    # quad vectors
+    qsyms = (0, 1, 2, 3, 4, 5, 7, 8, 15, 16, 64, 127, 128, 254, 255)
+    for name, s in [("empty", Seqn.from_values([])), ("one", Seqn.from_values([3]))] + rnd.sample(quad_input_shapes(rnd, "quick"), 4 if tier == "quick" else 10):
+        for kind in ("RSQ256", "RSQ512"):
+            b.reset()
+            o = b.newq(kind, rnd.choice(["u8", "u64", "u128"]), rnd.choice(["new", "collect", "from_qv"]), s)
+            for x in derived(b, o, rnd):
+                quad_queries(b, x, s, rnd, huge=ALLHUGE, syms=qsyms)
+                b.ith(x, "iter", "n" * min(len(s) + 3, 30))
+        b.reset()
+        qv = b.newq("QV", rnd.choice(ITYPES + UTYPES), "collect", s)
+        for x in derived(b, qv, rnd):
+            quad_queries(b, x, s, rnd, rs=False, huge=ALLHUGE)
+            b.ith(x, "into_iter", "n" * min(len(s) + 3, 30), keep=1)
+    b.reset()
+    for kind in ("RSQ256", "RSQ512", "QV"):
+        d = b.newq(kind, "u8", "default", Seqn.from_values([]))
+        for x in derived(b, d, rnd):
+            quad_queries(b, x, Seqn.from_values([]), rnd, rs=(kind != "QV"), huge=ALLHUGE, syms=qsyms)
+    # bit structures
+    shapes = [("empty", Seqn.from_values([])), ("one0", Seqn.from_values([0])), ("one1", Seqn.from_values([1])),
+              ("zeros", Seqn.from_runs([([0], 600)])), ("ones", Seqn.from_runs([([1], 513)]))] + \
+        rnd.sample(bit_input_shapes(rnd, "quick"), 4 if tier == "quick" else 10)
+    for name, s in shapes:
+        for kind, path in (("RSN", "new"), ("RSW", "new"), ("DA0", "new"), ("DA1", "new"), ("DA1", "bools"), ("BV", "bools"), ("BVM", "bools")):
+            b.reset()
+            o = b.newb(kind, path, s)
+            for x in derived(b, o, rnd):
+                if kind in ("BV", "BVM"):
+                    bvm_observe(b, x, s.values(), rnd, kind=kind, light=True)
+                    b.qg(x, "get", [], list(ALLHUGE))
+                else:
+                    bit_rs_queries(b, x, s, rnd, huge=ALLHUGE, rank=kind in ("RSN", "RSW"), select0=True)
+                if kind in ("DA0", "DA1", "BV", "BVM"):
+                    for p in list(ALLHUGE)[:4] + [0, len(s), len(s) + 1]:
+                        b.ith(x, "ones_with_pos", "nnn", pos=p)
+                        b.ith(x, "zeros_with_pos", "nnn", pos=p)
+    b.reset()
+    for kind in ("RSN", "RSW", "DA0", "DA1", "BV", "BVM"):
+        d = b.newb(kind, "default")
+        for x in derived(b, d, rnd):
+            if kind in ("BV", "BVM"):
+                bvm_observe(b, x, [], rnd, kind=kind, light=True)
+            else:
+                bit_rs_queries(b, x, Seqn.from_values([]), rnd, huge=ALLHUGE, rank=kind in ("RSN", "RSW"), select0=True)
+            if kind != "RSN" and kind != "RSW":
+                b.ith(x, "ones", "nn")
+                b.ith(x, "zeros_with_pos", "nn", pos=-1)
+    # position-list constructors: increasing input is fine, anything else is a documented panic
+    b.reset()
+    for kind in ("BV", "DA0", "DA1"):
+        for ty, pos in (("usize", [0, 5, 6, 700]), ("i32", [3, 4]), ("u128", [1, 9, 64]), ("i64", [5, 2]), ("i8", [-1, 3]), ("u64", [7, 7])):
+            o = b.newb(kind, "positions", ty=ty, pos=pos)
+            b.meta(o)
+            b.qg(o, "get", [], [0, 1, 5, 700, 701, -1])
+    # mutators at their documented limits
+    b.reset()
+    o = b.newb("BVM", "bools", Seqn.from_values([1, 0, 1, 1]))
+    for m, kw in (("set", dict(a=[4, 1])), ("set_bits", dict(a=[1, 4], w=[0])), ("append_bits", dict(a=[65], w=[])), ("append_bits", dict(a=[3], w=[3])),
+                  ("set_bits", dict(a=[0, 2], w=[2])), ("set", dict(a=[-1, 0]))):
+        x = b.conv(o, "clone")
+        b.mut(x, m, **kw)
+    # a builder and vector of quads
+    qb = b.newq("QB", "u8", "qb_new", Seqn.from_values([]))
+    b.mut(qb, "qpush", a=[255])
+    qv = b.conv(qb, "qbuild", keep=0)
+    quad_queries(b, qv, Seqn.from_values([3]), rnd, rs=False, huge=ALLHUGE)
     return b
